@@ -33,7 +33,7 @@ func (p *C06) Runs(tier string) int {
 
 func (p *C06) Generate(seed uint64, run int) *Case {
 	r := model.NewRand(seed, fmt.Sprintf("C06/%d", run))
-	o := &model.DocOpts{MaxInsts: 1 + r.Intn(10), ChordNames: p.w.ChordNames, Settings: r.Chance(2, 3), Meta: r.Chance(1, 2), Unicode: r.Chance(1, 4),
+	o := &model.DocOpts{MaxInsts: 1 + r.Intn(10), ChordNames: p.w.ChordNames, Dynamics: p.w.Dynamics, Settings: r.Chance(2, 3), Meta: r.Chance(1, 2), Unicode: r.Chance(1, 4),
 		BigDegrees: r.Chance(1, 5), RestBias: model.Pick(r, []int{0, 1, 3, 5, 8}), TrailRest: r.Chance(1, 3), OddValues: r.Chance(1, 3)}
 	if r.Chance(1, 30) {
 		o.MaxInsts = 80
@@ -71,6 +71,10 @@ func (p *C06) Generate(seed uint64, run int) *Case {
 		if r.Chance(1, 3) {
 			st.Stdin.Plan = GenPlan(r)
 			st.MapPolicy = model.Pick(r, mapPolicies)
+		}
+		if r.Chance(1, 2) {
+			st.SchedPolicy = model.Pick(r, schedPolicies)
+			st.CPUs = model.Pick(r, []int{1, 2, 4, 16})
 		}
 		c.Steps = append(c.Steps, st)
 	}
